@@ -15,10 +15,10 @@ func init() {
 	register(&propDef{
 		ID:      "C09",
 		Level:   "other",
-		Explain: "Structural necessary conditions of byte-stream transparency, each quantifying over all segmentations / close orders. The rules are evaluated per TUNNEL: a tcp.Handler implementation of package proxy/tcp that dials (found through the method set, whatever the receiver kind), or the HTTP handler of package proxy that hijacks the client connection (found by what it does, closure or method alike), together with its REGION (the same-package helpers, closures and goroutine bodies it reaches); sites are found by role inside the region, values are compared by object identity across helper parameters, results, captured variables and locally built structs (c09_flow.go). (B1) once a buffered reader (bufio.NewReader, or the ReadWriter returned by Hijack) has been placed over a connection, the raw connection is never used as a copy source afterwards — the reader is — and a hijacked ReadWriter is not discarded; (B2) a tunnel that starts copy goroutines receives as many completions as it started on every path to return, wherever the go statements and the receives live (otherwise the deferred Close of both sides cuts the direction still running: a client that half-closes after sending loses the reply); the obligation is keyed by the tunnel, not by the function that happens to contain the go statements; (B3) copy loops write exactly buf[0:n] with n the count returned by the read of the same buffer in the same iteration, and a short or failed write leaves the loop with an error; a streaming relay writes the bytes a read returned before it looks at the read error; (B4) when the route asks for the PROXY protocol the header is written before any other byte can reach the upstream, and a buffer filled by a consuming read from the client before the tunnel starts (the captured ClientHello) is written to the upstream, whole, before the copy goroutines start; (B5) every tcp.Handler implementation that dials supports the PROXY header option; (W1) the connection wrapper of proxy/tcp (the struct over a net.Conn that implements net.Conn) forwards Read/Write/Close unchanged. (B6) Peek lengths stay within the reader buffer. (B7) no SetLinger(n >= 0) on a tunnel connection (Close would discard queued data); Not decided: byte-for-byte delivery over real sockets (run-time behaviour of the kernel and net package).",
+		Explain: "Structural necessary conditions of byte-stream transparency, each quantifying over all segmentations / close orders. The rules are evaluated per TUNNEL: a tcp.Handler implementation of package proxy/tcp that dials (found through the method set, whatever the receiver kind), or the HTTP handler of package proxy that hijacks the client connection (found by what it does, closure or method alike), together with its REGION (the same-package helpers, closures and goroutine bodies it reaches); sites are found by role inside the region, values are compared by object identity across helper parameters, results, captured variables, struct fields (whoever stores them: constructor, method, field assignment) and methods reached through an interface of the repository (c09_flow.go); a struct that is itself a reader (a buffered connection: embedded net.Conn, Read overridden to read through its bufio.Reader) counts as what its Read method reads from. (B1) once a buffered reader (bufio.NewReader, or the ReadWriter returned by Hijack) has been placed over a connection, the raw connection is never used as a copy source afterwards — the reader is — and a hijacked ReadWriter is not discarded; (B2) a tunnel that starts copy goroutines receives as many completions as it started on every path to return, wherever the go statements and the receives live (otherwise the deferred Close of both sides cuts the direction still running: a client that half-closes after sending loses the reply); the obligation is keyed by the tunnel, not by the function that happens to contain the go statements; (B3) copy loops write exactly buf[0:n] with n the count returned by the read of the same buffer in the same iteration, and a short or failed write leaves the loop with an error; a streaming relay writes the bytes a read returned before it looks at the read error; (B4) when the route asks for the PROXY protocol the header is written before any other byte can reach the upstream, and a buffer filled by a consuming read from the client before the tunnel starts (the captured ClientHello) is written to the upstream, whole, before the copy goroutines start; (B5) every tcp.Handler implementation that dials supports the PROXY header option; (W1) every connection wrapper of proxy/tcp (a struct over a net.Conn that implements Read/Write/Close) forwards Read/Write/Close unchanged - to the wrapped connection, or for Read to a reader that was placed over that very connection - and makes no other call of that method on the wrapped connection. (B6) Peek lengths stay within the reader buffer. (B7) no SetLinger(n >= 0) on a tunnel connection (Close would discard queued data); Not decided: byte-for-byte delivery over real sockets (run-time behaviour of the kernel and net package).",
 		Run:     runC09,
 		Trusted: []string{"bufio.Reader returns buffered bytes before reading from the underlying connection", "io.Copy/copyBuffer deliver what Read returns, in order"},
-		Mutants: c09mutants,
+		Mutants: append(append([]mutant{}, c09mutants...), c09mutants2...),
 	})
 }
 
@@ -50,6 +50,28 @@ type c09tunnel struct {
 func c09newTunnel(c *Ctx, entry *ssa.Function, label string, tcp bool) *c09tunnel {
 	t := &c09tunnel{c: c, entry: entry, label: label, tcp: tcp, inReg: map[*ssa.Function]bool{}, relayRead: map[ssa.Instruction]bool{}}
 	t.reg = c.regionDepth(6, entry)
+	// methods reached through an interface of the repository (an interface where a callback used to be) belong to the
+	// region like the closures they replace
+	inReg := map[*ssa.Function]bool{}
+	for _, f := range t.reg {
+		inReg[f] = true
+	}
+	for k, round := 0, 0; k < len(t.reg) && round < 400; k, round = k+1, round+1 {
+		eachInstr(t.reg[k], func(i ssa.Instruction) {
+			ci, ok := i.(ssa.CallInstruction)
+			if !ok || !c09repoInvoke(ci.Common()) {
+				return
+			}
+			for _, m := range c09invokeTargets(i.Parent(), ci.Common().Value, ci.Common().Method) {
+				for _, g := range c.regionDepth(4, m) {
+					if !inReg[g] {
+						inReg[g] = true
+						t.reg = append(t.reg, g)
+					}
+				}
+			}
+		})
+	}
 	for _, f := range t.reg {
 		t.inReg[f] = true
 		rs, un := c09relaysOf(f)
@@ -125,11 +147,22 @@ func c09relaysOf(f *ssa.Function) (relays []c09relay, unmatched []*ssa.Call) {
 		relays = append(relays, c09relay{fn: f, rd: hit.call, wr: call, sl: sl})
 	})
 	for _, r := range reads {
-		if !r.used {
+		if !r.used && !c09forwardingRead(f, r.call) {
 			unmatched = append(unmatched, r.call)
 		}
 	}
 	return relays, unmatched
+}
+
+// c09forwardingRead: f is itself an io.Reader's Read method and rd fills f's own buffer parameter: the Read of a
+// reader object (a buffered connection that reads through its bufio.Reader) is a reader, not half of a relay.
+func c09forwardingRead(f *ssa.Function, rd *ssa.Call) bool {
+	sig := f.Signature
+	if sig.Recv() == nil || f.Name() != "Read" || sig.Params().Len() != 1 || !c09isByteSlice(sig.Params().At(0).Type()) || len(f.Params) != 2 {
+		return false
+	}
+	_, args, ok := c09ioCall(&rd.Call, "Read")
+	return ok && len(args) == 1 && args[0] == ssa.Value(f.Params[1])
 }
 
 // c09recvLabel: "(*proxy/tcp.Proxy).ServeTCP" for a method of Proxy, whatever the receiver kind.
@@ -243,6 +276,7 @@ func c09hijackers(c *Ctx) []*ssa.Function {
 }
 
 func runC09(c *Ctx) {
+	c09init(c)
 	handlers, nTypes := c09handlers(c)
 	c.atLeast("C09.B5", "tcp.Handler implementations that dial", nTypes, 3)
 	var tunnels []*c09tunnel
@@ -338,11 +372,115 @@ func (t *c09tunnel) copySources() []c09src {
 
 // goTargets: the repository functions a go statement may start.
 func c09goTargets(g *ssa.Go) []*ssa.Function {
+	if g.Call.IsInvoke() {
+		return c09invokeTargets(g.Parent(), g.Call.Value, g.Call.Method)
+	}
 	fns := funcsOf(g.Call.Value)
 	if sc := g.Call.StaticCallee(); sc != nil && isRepoFn(sc) {
 		fns = append(fns, unwrap(sc))
 	}
 	return fns
+}
+
+// c09repoInvoke: a method call through an interface type that is declared in the repository.
+func c09repoInvoke(cc *ssa.CallCommon) bool {
+	if cc == nil || !cc.IsInvoke() || cc.Method == nil || cc.Method.Pkg() == nil {
+		return false
+	}
+	return strings.HasPrefix(cc.Method.Pkg().Path(), repoMod)
+}
+
+// c09reach: fn, its closures, and the repository functions they call (statically, or through a local function value).
+func c09reach(fn *ssa.Function, depth int, seen map[*ssa.Function]bool) []*ssa.Function {
+	if fn == nil || seen[fn] || depth > 3 {
+		return nil
+	}
+	var out []*ssa.Function
+	for _, h := range withAnon(fn) {
+		if seen[h] {
+			continue
+		}
+		seen[h] = true
+		out = append(out, h)
+		eachInstr(h, func(i ssa.Instruction) {
+			call, ok := i.(*ssa.Call)
+			if !ok || call.Call.IsInvoke() {
+				return
+			}
+			if sc := c09bodyOf(&call.Call); sc != nil {
+				out = append(out, c09reach(unwrap(sc), depth+1, seen)...)
+			} else if call.Call.StaticCallee() == nil {
+				for _, g := range funcsOf(call.Call.Value) {
+					out = append(out, c09reach(g, depth+1, seen)...)
+				}
+			}
+		})
+	}
+	return out
+}
+
+// c09invokeTargets: `go x.m(...)` with x of interface type (an interface where a callback used to be): the declared
+// methods m of the concrete types that visibly flow into x; when none is visible (x comes out of a field or a
+// parameter nobody fills statically), of every type of the package that has such a method.
+func c09invokeTargets(in *ssa.Function, x ssa.Value, m *types.Func) []*ssa.Function {
+	if in == nil || in.Prog == nil || m == nil {
+		return nil
+	}
+	prog := in.Prog
+	var out []*ssa.Function
+	seen := map[*ssa.Function]bool{}
+	add := func(t types.Type) {
+		sel := prog.MethodSets.MethodSet(t).Lookup(m.Pkg(), m.Name())
+		if sel == nil {
+			return
+		}
+		f := prog.MethodValue(sel)
+		if obj, ok := sel.Obj().(*types.Func); ok {
+			if d := prog.FuncValue(obj); d != nil && len(d.Blocks) > 0 {
+				f = d
+			}
+		}
+		if f != nil && len(f.Blocks) > 0 && isRepoFn(f) && !seen[f] {
+			seen[f] = true
+			out = append(out, f)
+		}
+	}
+	w := c09newWalker()
+	w.visit = func(v ssa.Value) {
+		if mi, ok := v.(*ssa.MakeInterface); ok {
+			if _, isIface := mi.X.Type().Underlying().(*types.Interface); !isIface {
+				add(mi.X.Type())
+			}
+		}
+	}
+	w.walk(x)
+	if len(out) > 0 {
+		return out
+	}
+	sp := rootPkg(in)
+	if sp == nil {
+		return nil
+	}
+	var names []string
+	for n, mem := range sp.Members {
+		if _, ok := mem.(*ssa.Type); ok {
+			names = append(names, n)
+		}
+	}
+	sort.Strings(names)
+	for _, n := range names {
+		nt := sp.Members[n].(*ssa.Type).Type()
+		if _, isIface := nt.Underlying().(*types.Interface); isIface {
+			continue
+		}
+		for _, t := range []types.Type{nt, types.NewPointer(nt)} {
+			if sel := prog.MethodSets.MethodSet(t).Lookup(m.Pkg(), m.Name()); sel != nil && types.Identical(sel.Type().(*types.Signature).Params(), m.Type().(*types.Signature).Params()) {
+				add(t)
+				break
+			}
+		}
+	}
+	return out
 }
 
 // isCopyStart: a go statement whose goroutine copies a stream.
@@ -463,20 +601,41 @@ func c09mayRunAfter(w, s ssa.Instruction, depth int) bool {
 	if s.Parent() == w.Parent() {
 		return canReach(w, s)
 	}
-	g := s.Parent()
-	sites := gSites[g]
-	if depth > 3 || g == nil || len(sites) == 0 || !onlyStaticallyCalled(g) {
+	if depth > 4 {
 		return true
 	}
-	for _, site := range sites {
-		if _, isCall := site.(*ssa.Call); !isCall {
-			return true
+	// a helper that is only ever called synchronously stands for its call sites
+	syncSites := func(g *ssa.Function) []ssa.CallInstruction {
+		sites := gSites[g]
+		if g == nil || len(sites) == 0 || !onlyStaticallyCalled(g) {
+			return nil
 		}
-		if c09mayRunAfter(w, site, depth+1) {
-			return true
+		for _, site := range sites {
+			if _, isCall := site.(*ssa.Call); !isCall {
+				return nil
+			}
 		}
+		return sites
 	}
-	return false
+	if sites := syncSites(s.Parent()); sites != nil {
+		for _, site := range sites {
+			if c09mayRunAfter(w, site, depth+1) {
+				return true
+			}
+		}
+		return false
+	}
+	// the reader is made in a helper (a constructor of a buffered connection): after w = after the call of the helper
+	// (s is not in that helper nor below it, or the branch above would have met w's function)
+	if sites := syncSites(w.Parent()); sites != nil {
+		for _, site := range sites {
+			if c09mayRunAfter(site, s, depth+1) {
+				return true
+			}
+		}
+		return false
+	}
+	return true
 }
 
 // ---- B2 -----------------------------------------------------------------------------------------------------------
@@ -501,10 +660,16 @@ func (j *c09join) collect(g *ssa.Go) {
 		j.lastGo = g
 	}
 	for _, fn := range c09goTargets(g) {
-		for _, h := range withAnon(fn) {
+		for _, h := range c09reach(fn, 0, map[*ssa.Function]bool{}) {
 			eachInstr(h, func(i ssa.Instruction) {
 				if snd, ok := i.(*ssa.Send); ok {
-					for k, v := range c09roots(snd.Chan) {
+					w := c09newWalker()
+					if g.Call.IsInvoke() && len(fn.Params) > 0 {
+						// the receiver of a method started through an interface is the object in the interface
+						w.bind[fn.Params[0]] = []ssa.Value{g.Call.Value}
+					}
+					w.walk(snd.Chan)
+					for k, v := range w.roots {
 						j.sendRoots[k] = v
 					}
 				}
@@ -598,6 +763,15 @@ func (j *c09join) worst(f *ssa.Function, depth int) (int, int) {
 				} else if sc := c09bodyOf(&x.Call); sc != nil {
 					hs, hr := j.worst(unwrap(sc), depth+1)
 					s, r = s+hs, r+hr
+				} else if c09repoInvoke(&x.Call) {
+					// a step of the tunnel behind an interface of the repository: the worst of its implementations
+					bs, br := 0, 0
+					for _, m := range c09invokeTargets(x.Parent(), x.Call.Value, x.Call.Method) {
+						if hs, hr := j.worst(m, depth+1); hs-hr > bs-br || (hs-hr == bs-br && hs > bs) {
+							bs, br = hs, hr
+						}
+					}
+					s, r = s+bs, r+br
 				}
 			case *ssa.Return:
 				if deferWait {
